@@ -112,8 +112,10 @@ P_C11(pre, e) ==
     /\ (e.ev = "restart" =>
           \A k \in DOMAIN e.a.pre :
              Ck("C11", "AdoptedCounts",
-                k \in DOMAIN e.a.post /\ e.a.post[k].win = e.a.pre[k].win /\ e.a.post[k].lose = e.a.pre[k].lose
-                /\ (e.a.pre[k].nlive > 0 <=> e.a.post[k].nlive > 0),
+                \* (a runner that carried nothing before the crash - a market merely looked at - need not exist afterwards)
+                \/ (k \notin DOMAIN e.a.post /\ e.a.pre[k].win = 0 /\ e.a.pre[k].lose = 0 /\ e.a.pre[k].nlive = 0)
+                \/ (k \in DOMAIN e.a.post /\ e.a.post[k].win = e.a.pre[k].win /\ e.a.post[k].lose = e.a.pre[k].lose
+                    /\ (e.a.pre[k].nlive > 0 <=> e.a.post[k].nlive > 0)),
                 <<k, e.a.pre[k], IF k \in DOMAIN e.a.post THEN e.a.post[k] ELSE <<>>>>))
 
 -----------------------------------------------------------------------------
@@ -162,7 +164,9 @@ P_C10L(pre, e) ==
 P_C15L(pre, e) ==
     /\ Ck("C15", "LiveListComplete", LiveListIncomplete(e.st) = {}, LiveListIncomplete(e.st))
     /\ (pre.instance = e.st.instance =>
-          Ck("C15", "RemovedOnlyAfterComplete", LeftLiveWhileIncomplete(pre, e.st) = {}, LeftLiveWhileIncomplete(pre, e.st)))
+          \* (orders of a market that the framework released - closed for more than an hour, C20 - go with it)
+          LET left == {o \in LeftLiveWhileIncomplete(pre, e.st) : Has(e.st.mkt, e.st.ord[o].mid)}
+          IN Ck("C15", "RemovedOnlyAfterComplete", left = {}, left))
     /\ Ck("C15", "LiveInBlotter", LiveNotInBlotter(e.st) = {}, LiveNotInBlotter(e.st))
 P_C20L(pre, e) ==
     e.ev = "close" =>
